@@ -322,6 +322,22 @@ func (ps *pathSym) step(in ssa.Instruction) {
 		if cal == nil {
 			return
 		}
+		if strings.HasSuffix(cal.String(), "Endian).PutUint16") || strings.HasSuffix(cal.String(), "Endian).PutUint32") || strings.HasSuffix(cal.String(), "Endian).PutUint64") {
+			if len(x.Call.Args) == 3 {
+				order := "be"
+				if strings.Contains(cal.String(), "littleEndian") {
+					order = "le"
+				}
+				bits := cal.Name()[len("PutUint"):]
+				dst := x.Call.Args[1]
+				if sl, ok := dst.(*ssa.Slice); ok && sl.Low == nil && sl.High == nil {
+					ps.sym[ps.rootOf(sl.X)] = order + bits + "(" + ps.S(x.Call.Args[2]) + ")"
+				} else {
+					ps.sym[ps.rootOf(dst)] = "written@" + ps.p.InstrPos(x)
+				}
+			}
+			return
+		}
 		if cal.String() == "io.ReadFull" && len(x.Call.Args) == 2 {
 			ps.draws++
 			ps.cache[ssa.Value(x)] = "ReadFull(" + ps.S(x.Call.Args[0]) + ")"
